@@ -203,6 +203,10 @@ def run(ctx, rng_name="main"):
     judge(ctx, cases)
 
 
+def ident_plain_head(ident):
+    return ident.count("@") == 1 and ident.endswith("@head")
+
+
 def judge(ctx, cases):
     if not cases:
         return
@@ -256,6 +260,11 @@ def judge(ctx, cases):
                         spec_meta.append(("branchprefix", inp, impl, r))
             spec_ops.append({"op": "rev.spec.targets", **h, "ident": ident})
             spec_meta.append(("ref", inp, impl, None))
+            if ident_plain_head(ident):
+                # the singular form names ONE head: with several heads on the named branch it must refuse
+                # (unqualified `head` is already decided by the reference resolution above)
+                spec_ops.append({"op": "rev.spec.targets", **h, "ident": ident + "s"})
+                spec_meta.append(("onehead", inp, impl, None))
         else:
             # relative forms with an explicit symbol: exact distance along down_revision links
             mm = re.match(r"^(?:(.+?)@)?(\w+)?([+-]\d+)", ident)
@@ -306,6 +315,11 @@ def judge(ctx, cases):
         elif kind == "ref":
             if "targets" in a and sorted(x for x in impl["revs"] if x) != sorted(a["targets"]):
                 ctx.fail(inp, "symbolic: %r resolves to %s, documented meaning is %s" % (inp["ident"], impl["revs"], a["targets"]), impl=impl, tags=["symbolic"])
+        elif kind == "onehead":
+            want = a.get("targets")
+            if ident_plain_head(inp["ident"]) and want is not None and len(set(want)) > 1 and [x for x in impl["revs"] if x]:
+                ctx.fail(inp, "ambiguous-head: %r resolves to %s although the branch has the heads %s (documented: an error)" % (
+                    inp["ident"], impl["revs"], sorted(want)), impl=impl, tags=["symbolic", "onehead"])
         elif kind == "branchprefix":
             if a.get("holds") is not True:
                 ctx.fail(inp, "wrong-revision-in-branch: %r resolves to %r which is not the unique revision of that branch whose id starts with it" % (inp["ident"], extra), impl=impl, tags=["branchprefix"])
